@@ -877,6 +877,9 @@ class Interp:
                     cur.fn = lambda i: V.cast_to(s(i), dt)
                 return
         if isinstance(cur, Arr2) and isinstance(new, Arr2):
+            vo = getattr(cur, "_view_of", None)
+            if vo is not None and vo() is not None:
+                raise Unsupported("in-place write through a reshaped view (aliasing guard)")
             cur.rows = [list(r) for r in new.rows] if new.rows is not None else None
             cur.fn = new.fn
             return
